@@ -306,7 +306,10 @@ func regexpNext(sb *strings.Builder, sl *stringLexer, mode Mode) error {
 				return literalBracket()
 			}
 		}
+		afterClass := false // the previous member was a [:class:], which cannot start a range
 		for ; ; firstMember = false {
+			wasClass := afterClass
+			afterClass = false
 			switch c {
 			case '\x00':
 				// Bash is inconsistent about invalid character classes
@@ -337,6 +340,11 @@ func regexpNext(sb *strings.Builder, sl *stringLexer, mode Mode) error {
 					bsb.WriteString(regexp.QuoteMeta(string(c)))
 				}
 			case '-':
+				if wasClass {
+					// Like Bash, a '-' right after a character class is an ordinary member.
+					bsb.WriteString(`\-`)
+					break
+				}
 				bsb.WriteByte('-')
 				start := sl.last()
 				end := sl.peekNext()
@@ -375,6 +383,7 @@ func regexpNext(sb *strings.Builder, sl *stringLexer, mode Mode) error {
 					}
 					bsb.WriteString(rest[:n])
 					sl.i += n
+					afterClass = err == nil
 				}
 			default:
 				if filenames && c == '/' {
